@@ -65,6 +65,14 @@ CLAIMED["C06"] = {
     "technique": "deterministic simulation of sign/edit/verify histories on one object; verdict oracle from a reference digest model",
 }
 
+CLAIMED["C04"] = {
+    "category": "exploration",
+    "text": "The real TxFetcher (fetch, lazy value/script/fee look-ups, dump_cache/load_cache, process-wide cache) runs against stub block explorers that serve a generated chain database honestly or with one of 15 response behaviours (wrong tx, tweaked field, truncation at k, garbage, not hex, empty, trailing bytes, whitespace/upper case, witness stripped/malleated, non-canonical re-encoding, HTTP error, timeout, connection error, slow), with restarts and torn cache-file writes: every returned or cached transaction hashes to the id it was requested under (F1), honest canonical responses are accepted and re-serialise byte-exactly (F2), segwit ids are witness-stripped hashes and survive witness malleation (F3), the cache survives dump/restart/load (F4). Truncation at every offset of sampled responses is enumerated.",
+    "design_ref": "DESIGN.md 5.2, 6 (C04)",
+    "note": "Trusted: ref/txmodel.py. Only the fetcher clause and txid definition are decided by simulation; the for-all-encodings round-trip clauses are sampled through the served transactions (push lengths 0..520 incl. 75/76/255/256, counts up to 300, witness items up to 70000 bytes), not enumerated. The cache file is trusted by design (no bit-rot), torn writes are injected.",
+    "technique": "deterministic simulation of client/explorer/disk with response and disk fault injection; ground-truth oracle from the stub's chain database",
+}
+
 PENDING = {}
 
 
